@@ -16,7 +16,7 @@ RULE = (
     "redundant parentheses, 1'b0/1'b1/1'h0/1'h1; named-port blackbox instances with connected "
     "(net, constant or expression) / `.p()` / omitted pins), items in arbitrary order (use before "
     "definition, declarations after use), implicit nets, escaped identifiers, line and block comments in "
-    "the port list and body, drawn whitespace in every token gap (header closed by `);`). The AST is "
+    "the port list and body and before/after the module, drawn whitespace in every token gap (header closed by `);`). The AST is "
     "rendered to text and parsed by verilog_to_circuit. Oracle: inputs()/outputs()/name equal the "
     "declarations; every net of the netlist and every connected blackbox input pin equals the AST "
     "evaluator (Verilog semantics, bit-parallel over all valuations of inputs and blackbox outputs, <= 10 "
@@ -283,7 +283,9 @@ def _case(draw, ctx):
     ws = draw(st.one_of(st.none(), st.lists(st.integers(0, 7), min_size=5, max_size=40)))
     rj = draw(st.sampled_from([None] * 9 + ["port_undeclared", "input_not_in_ports", "output_not_in_ports"]))
     tables = draw(st.lists(st.integers(0, (1 << 64) - 1), min_size=16, max_size=16))
-    return {"mod": mod, "ws": ws, "reject": rj, "tables": tables}
+    pre = draw(st.sampled_from(["", "", "\n// Generated by some tool 1.2\n// on: Jan 17 2020\n\n", "/* header\n   comment */\n", "\n\n  "]))
+    post = draw(st.sampled_from(["", "", "\n// end of file\n", "\n\n"]))
+    return {"mod": mod, "ws": ws, "reject": rj, "tables": tables, "pre": pre, "post": post}
 
 
 def strategy(ctx):
@@ -323,7 +325,7 @@ def check(case, ctx):
         mod["ports"] = [p for p in mod["ports"] if p != victim]
     if not [p for p in mod["ports"] if not isinstance(p, dict)]:
         return {"nontrivial": False, "labels": ["skipped_empty_port_list"]}
-    text = vlog.render(mod, case.get("ws"), glue_close="header")
+    text = case.get("pre", "") + vlog.render(mod, case.get("ws"), glue_close="header") + case.get("post", "")
     bbs = [cg.BlackBox(n, list(i), list(o)) for n, i, o in mod["bbtypes"]]
     out = lib(cg.io.verilog_to_circuit, text, mod["name"], blackboxes=bbs)
     if rj:
